@@ -1,6 +1,8 @@
 import KojenVerif.Lemmas.EngineInner
 import KojenVerif.Lemmas.EngineFilter
 import KojenVerif.Lemmas.EngineSig
+import KojenVerif.Lemmas.EnginePgt
+import KojenVerif.Lemmas.EngineNestedWF
 import KojenVerif.Lemmas.Str
 /-
   C16 — template engine: per-element blocks expand once per element, in model order.
@@ -15,10 +17,18 @@ import KojenVerif.Lemmas.Str
   `C16_counters`, `C16_letter_cycle`); a per-action-signature block once per (action, event) pair
   (`C16_action_signature_block`); the blank-line filter (`C16_blank_lines`) and the TAB
   filter (`C16_tab_filter`).
-  Claimed through the correspondence and the reference expander only, not yet proved: the
-  nested per-state / per-event / per-guard transition expansion with alternative texts,
-  struct / message blocks, signature / member / documentation /
-  attribute lines (see DESIGN.md 6/C16 staging).
+  The innermost level of the nested transition expansion — one per-guard-transition block for the
+  transitions of one (state, event) pair — is proved too: once per transition in table order, every
+  line through the rule "present transition tags take the row's value; a line that still mentions
+  an absent one is dropped, or replaced by the alternative text of its single tag at the line's
+  indentation" (`C16_transition_block`, `C16_transition_line`, and the rule spelled out in
+  `C16_transition_keeps / _drops / _alternative / _alternative_unused / _values`).
+  The two outer levels are proved on top of it (`C16_nested_transitions`, `C16_per_event_level`): the
+  per-state-transition block is expanded once per state (source states in table order, then
+  target-only states), inside once per event of that state in first-appearance order, inside once per
+  transition of the pair, the state's and the event's names substituted on the way down.
+  Claimed through the correspondence and the reference expander only, not yet proved: struct / message
+  blocks, signature / member / documentation / attribute lines (see DESIGN.md 6/C16 staging).
 
   Hypotheses are decidable conditions on the concrete template and model, evaluated by the
   driver on every generated case: `Chunk.OK` (a line is a delimiter of the pass exactly when
@@ -108,6 +118,70 @@ theorem C16_blank_lines (ls : List Line) : filterNewlines ls = collapseRef false
 /-- **TAB filter** of the output stage: idempotent replacement of every TAB by four spaces. -/
 theorem C16_tab_filter (s : Str) : expandTabs (expandTabs s) = expandTabs s := expandTabs_idem s
 
+/-! ### transitions lacking a guard, action or target -/
+
+/-- **One per-guard-transition block.**  For the transitions `rows` of one (state, event) pair, in
+    table order, the engine emits for every transition every body line through the line rule of the
+    specification (`Spec.pgtLine` with the row's dictionary `Spec.transTags`).  Grammar (`PgtItemOK`,
+    decidable, evaluated by the driver on every generated case): angle-free literals, names and
+    alternatives; tag names without '='; either no tag of the line has an alternative text or the
+    line's only tag has one; literal runs, alternative texts and foreign tag names mention none of
+    the fifteen transition keywords, also after the row's values are in place. -/
+theorem C16_transition_block (rows : List Table.Row) (body : List Spec.BItem) (hr : ∀ r ∈ rows, RowOK r)
+    (hb : ∀ r ∈ rows, ∀ i ∈ body, PgtItemOK (Spec.transTags r) i) :
+    pgtExpand rows (body.map Spec.BItem.render) [] =
+      some (((rows.map (fun r => (body.map (Spec.pgtLine (Spec.transTags r))).flatten)).flatten).map Spec.BItem.render) :=
+  pgtExpand_eq rows body hr hb
+
+/-- one line, one transition -/
+theorem C16_transition_line (r : Table.Row) (hr : RowOK r) (l : Spec.SLine) (h : PgtLineOK (Spec.transTags r) l) :
+    pgtLine (transDict r) (Spec.renderLine l) = (Spec.pgtLine (Spec.transTags r) (.line l)).map Spec.BItem.render := by
+  rw [transDict_eq]; exact pgtLine_line _ (transTags_chain r hr) (transTags_keys r) l h
+
+/-- the row's dictionary: action, guard and target names exactly when the row has them (the source
+    state under `STATENAMEIFNEXTSTATE` exactly when there is a target) -/
+theorem C16_transition_values (r : Table.Row) :
+    Spec.lookupS (Spec.transTags r) (T "ACTIONNAME") = r.action ∧
+    Spec.lookupS (Spec.transTags r) (T "GUARDNAME") = r.guard ∧
+    Spec.lookupS (Spec.transTags r) (T "NEXTSTATENAME") = r.next ∧
+    Spec.lookupS (Spec.transTags r) (T "STATENAMEIFNEXTSTATE") = r.next.map (fun _ => r.src) := transTags_values r
+
+/-- the rule, case 1: every transition tag of the line is answered by the row — the line is emitted,
+    values in place -/
+theorem C16_transition_keeps (d : List (Str × Str)) (l : Spec.SLine)
+    (h : ∀ p ∈ tagsOf l, p.1 ∈ names15 → (Spec.lookupS d p.1).isSome = true) :
+    Spec.pgtLine d (.line l) = [.line (Spec.substLine (Spec.transSubst d) l)] := spec_pgt_keeps d l h
+
+/-- case 2: a line without alternative texts that mentions a transition tag the row lacks is dropped -/
+theorem C16_transition_drops (d : List (Str × Str)) (l : Spec.SLine) (hd : NoDflt l) (X : Str) (hX : X ∈ names15)
+    (hin : (X, none) ∈ tagsOf l) (hab : Spec.lookupS d X = none) : Spec.pgtLine d (.line l) = [] :=
+  spec_pgt_drops d l hd X hX hin hab
+
+/-- case 3: the line's single tag is a transition tag the row lacks and carries an alternative text —
+    the alternative, at the line's indentation, replaces the line -/
+theorem C16_transition_alternative (d : List (Str × Str)) (l : Spec.SLine) (X alt : Str)
+    (ht : tagsOf l = [(X, some alt)]) (hX : X ∈ names15) (hab : Spec.lookupS d X = none) :
+    Spec.pgtLine d (.line l) = [.line [.lit (indentOf l ++ alt)]] := spec_pgt_alternative d l X alt ht hX hab
+
+/-- case 4: … and when the row has the element, its value is used and the alternative is not -/
+theorem C16_transition_alternative_unused (d : List (Str × Str)) (l : Spec.SLine) (X alt v : Str)
+    (ht : tagsOf l = [(X, some alt)]) (hv : Spec.lookupS d X = some v) :
+    Spec.pgtLine d (.line l) = [.line (setTag l v)] := spec_pgt_alternative_unused d l X alt v ht hv
+
+/-- **The per-event level**: for one state, the body of a per-event-transition block is emitted once
+    per event of that state in first-appearance order, the event's name in place, every
+    per-guard-transition block inside expanded over the transitions of the (state, event) pair. -/
+theorem C16_per_event_level (t : List Table.Row) (s : Str) (body : List Spec.PetItem) (h : PetOK t s body) :
+    petExpand t s ((body.map Spec.PetItem.render).flatten) [] = some ((Spec.expandPet t s body).map Spec.BItem.render) :=
+  petExpand_eq t s body h
+
+/-- **The nested transition expansion, all three levels.**  For every table and every block body of
+    the grammar (`PstOK`, decidable: `pstOKB_sound`), the engine's expansion of a
+    per-state-transition block is the specification's `Spec.expandPst`. -/
+theorem C16_nested_transitions (t : List Table.Row) (body : List Spec.PstItem) (h : PstOK t body) :
+    pstExpand t ((body.map Spec.PstItem.render).flatten) [] = some ((Spec.expandPst t body).map Spec.BItem.render) :=
+  pstExpand_eq t body h
+
 /-! non-vacuity: a state block over two states, with a blank line, counters and three cases -/
 section Example
 def exEnv : Env :=
@@ -122,6 +196,43 @@ example : pairExpand (T "<<<PER_STATE_BEGIN>>>") (T "<<<PER_STATE_END>>>") (inne
     some [T "head\n", T "  s IdleNow idleNow idle_now 0a\n", T "  s Run run run 1b\n", T "tail\n"] := by decide
 example : filterNewlines [T "a\n", T "\n", T "  \n", T "\t\n", T "\n", T " \n", T "b\n"] =
     [T "a\n", T "\n", [], T "\t\n", T "\n", [], T "b\n"] := by decide
+
+/-! non-vacuity of the transition rule: a guarded row with action and target, and a bare row -/
+def exRows : List Table.Row :=
+  [ { src := T "Idle", ev := T "Go", next := some (T "Run"), action := some (T "Start"), guard := some (T "IsReady") },
+    { src := T "Idle", ev := T "Go", next := none, action := none, guard := none } ]
+def exPgt : List Spec.BItem :=
+  [ .line [.lit (T "  if ("), .tag (T "GUARDNAME") none, .lit (T "()) {")],
+    .line [.lit (T "    "), .tag (T "ACTIONNAME") (some (T "/* nothing to do */"))],
+    .line [.lit (T "    next = "), .tag (T "NEXTSTATENAME") none, .lit (T ";")],
+    .blank (T "  "),
+    .line [.lit (T "  done")] ]
+example : (∀ r ∈ exRows, RowOK r) ∧ (∀ r ∈ exRows, ∀ i ∈ exPgt, PgtItemOK (Spec.transTags r) i) := by
+  constructor
+  · intro r hr; exact rowOKB_sound r (by revert r hr; decide)
+  · intro r hr i hi; exact pgtItemOKB_sound _ i (by revert i hi; revert r hr; decide)
+example : pgtExpand exRows (exPgt.map Spec.BItem.render) [] =
+    some [T "  if (IsReady()) {\n", T "    Start\n", T "    next = Run;\n", T "  \n", T "  done\n",
+          T "    /* nothing to do */\n", T "  \n", T "  done\n"] := by decide
+
+/-! non-vacuity of the nested expansion: two states, one with two events, a guarded and a bare row -/
+def exTable : List Table.Row :=
+  [ { src := T "Idle", ev := T "Go", next := some (T "Run"), action := some (T "Start"), guard := some (T "IsReady") },
+    { src := T "Idle", ev := T "Go", next := none, action := none, guard := none },
+    { src := T "Idle", ev := T "Off", next := some (T "Run"), action := none, guard := none } ]
+def exPst : List Spec.PstItem :=
+  [ .b (.line [.lit (T "state "), .tag (T "STATENAME") none]),
+    .pet (T "  ") [ .b (.line [.lit (T " on "), .tag (T "EVENTNAME") none, .lit (T " in "), .tag (T "stateName") none]),
+                    .pgt (T "    ") exPgt ] ]
+example : PstOK exTable exPst := pstOKB_sound _ _ (by decide)
+example : pstExpand exTable ((exPst.map Spec.PstItem.render).flatten) [] =
+    some [T "state Idle\n",
+          T " on Go in idle\n",
+          T "  if (IsReady()) {\n", T "    Start\n", T "    next = Run;\n", T "  \n", T "  done\n",
+          T "    /* nothing to do */\n", T "  \n", T "  done\n",
+          T " on Off in idle\n",
+          T "    /* nothing to do */\n", T "    next = Run;\n", T "  \n", T "  done\n",
+          T "state Run\n"] := by decide
 end Example
 
 end KojenVerif.C16
